@@ -3,6 +3,7 @@ package main
 import (
 	"fmt"
 	"go/token"
+	"go/types"
 	"sort"
 	"strings"
 
@@ -340,18 +341,63 @@ func ruleC18Reset(cx *Ctx) {
 		if !ok {
 			return
 		}
-		if ia, isIA := st.Addr.(*ssa.IndexAddr); isIA && sameField(fieldOf(ia.X), tableF) {
+		if ia, isIA := st.Addr.(*ssa.IndexAddr); isIA && (sameField(fieldOf(ia.X), tableF) || tableBlock(ia.X, tableF) != nil) {
 			n++
+			// the stored value is a function of the word it replaces: loads of the very same element are "w"
 			tb := newInliningTermBuilder()
-			iv, first, bound, isInd := indexInduction(ia.Index)
-			if isInd {
-				tb.subst[iv] = tVar("i")
-			}
+			allInstrs(fn, func(in2 ssa.Instruction) {
+				if ld, isLd := in2.(*ssa.UnOp); isLd && ld.Op == token.MUL {
+					if ia2, ok2 := ld.X.(*ssa.IndexAddr); ok2 && ia2.Index == ia.Index && (ia2.X == ia.X || newInliningTermBuilder().of(ia2.X).String() == newInliningTermBuilder().of(ia.X).String()) {
+						tb.subst[ld] = tVar("w")
+					}
+				}
+			})
 			got := tb.of(st.Val).String()
-			wantT := mk("&", mk(">>", mk("index", mk("field:table", tVar("param0")), tVar("i")), tConst(1)), tConst(0x7777777777777777)).String()
+			wantT := mk("&", mk(">>", tVar("w"), tConst(1)), tConst(0x7777777777777777)).String()
 			cx.R.Check(got == wantT, rule, name, "halving", cx.P.where(st), "table[i] = (table[i] >> 1) & 0x7777777777777777 (got "+got+")")
-			full := isInd && first == 0 && newInliningTermBuilder().of(bound).String() == "builtin:len(field:table(param0))"
-			cx.R.Check(full, rule, name, "whole table", cx.P.where(st), "the halving loop runs over i = 0 .. len(table)-1")
+			_, first, bound, isInd := indexInduction(ia.Index)
+			full, how := false, ""
+			if sl := tableBlock(ia.X, tableF); sl == nil {
+				full = isInd && first == 0 && newInliningTermBuilder().of(bound).String() == "builtin:len(field:table(param0))"
+			} else {
+				// block-wise walk: the inner index covers the block table[lo:hi], the outer one steps lo by the block
+				// length from 0 while a whole block is left; the block length divides the table length (a power of two
+				// >= 8, C18.block) when it is 1, 2, 4 or 8
+				inner := isInd && first == 0 && (isLenOf(bound, sl) || sameDiff(bound, sl))
+				lo, hi := sl.Low, sl.High
+				step, okStep := blockStep(lo, hi)
+				outer := false
+				if ph, isPhi := lo.(*ssa.Phi); isPhi && okStep && (step == 1 || step == 2 || step == 4 || step == 8) {
+					zero, inc := false, false
+					for _, e := range ph.Edges {
+						if k, isK := constInt(e); isK && k == 0 {
+							zero = true
+						} else if isAddConst(e, ph, step) {
+							inc = true
+						}
+					}
+					// exit test: lo < len(table)  or  lo+step <= len(table)
+					cond := false
+					for _, cand := range append(usesOf(ph), usesOfAll(addsOf(ph, step))...) {
+						b, isB := cand.(*ssa.BinOp)
+						if !isB || newInliningTermBuilder().of(b.Y).String() != "builtin:len(field:table(param0))" {
+							continue
+						}
+						if b.Op == token.LSS && b.X == ssa.Value(ph) {
+							cond = true
+						}
+						if b.Op == token.LEQ && isAddConst(b.X, ph, step) {
+							cond = true
+						}
+					}
+					outer = zero && inc && cond
+					if !cond {
+						how = " (the block loop must run while lo < len(table) or lo+step <= len(table))"
+					}
+				}
+				full = inner && outer
+			}
+			cx.R.Check(full, rule, name, "whole table", cx.P.where(st), "the halving loop runs over i = 0 .. len(table)-1"+how)
 		}
 		if sameField(fieldOf(st.Addr), sizeF) {
 			got := newInliningTermBuilder().of(st.Val).String()
@@ -646,4 +692,58 @@ func ruleC18Admit(cx *Ctx) {
 	if sites == 0 {
 		cx.R.Violate(rule, ename, "admit call", cx.P.Pos(efm.Pos()), "evictFromMain no longer consults admit")
 	}
+}
+
+// tableBlock: v is a sub-slice table[lo:hi] of the sketch's table (nil otherwise).
+func tableBlock(v ssa.Value, tableF *types.Var) *ssa.Slice {
+	sl, ok := v.(*ssa.Slice)
+	if !ok || sl.Low == nil || sl.High == nil || !sameField(fieldOf(sl.X), tableF) {
+		return nil
+	}
+	return sl
+}
+
+func isLenOf(bound ssa.Value, sl *ssa.Slice) bool {
+	c, ok := bound.(*ssa.Call)
+	return ok && isBuiltinCall(c, "len") && len(c.Call.Args) == 1 && c.Call.Args[0] == ssa.Value(sl)
+}
+
+// blockStep: hi == lo + k for a constant k.
+func blockStep(lo, hi ssa.Value) (int64, bool) {
+	b, ok := hi.(*ssa.BinOp)
+	if !ok || b.Op != token.ADD {
+		return 0, false
+	}
+	if k, isK := constInt(b.Y); isK && b.X == lo {
+		return k, true
+	}
+	if k, isK := constInt(b.X); isK && b.Y == lo {
+		return k, true
+	}
+	return 0, false
+}
+
+// sameDiff: the inner bound is the constant block length hi - lo.
+func sameDiff(bound ssa.Value, sl *ssa.Slice) bool {
+	k, ok := constInt(bound)
+	step, okS := blockStep(sl.Low, sl.High)
+	return ok && okS && k == step
+}
+
+func addsOf(ph *ssa.Phi, k int64) []ssa.Value {
+	var out []ssa.Value
+	for _, u := range usesOf(ph) {
+		if b, ok := u.(*ssa.BinOp); ok && isAddConst(b, ph, k) {
+			out = append(out, b)
+		}
+	}
+	return out
+}
+
+func usesOfAll(vs []ssa.Value) []ssa.Instruction {
+	var out []ssa.Instruction
+	for _, v := range vs {
+		out = append(out, usesOf(v)...)
+	}
+	return out
 }
